@@ -118,6 +118,15 @@ pub fn serve_tls<S: Read + Write + std::fmt::Debug>(acceptor: &SslAcceptor, stre
     res
 }
 
+/// True when a bridged exchange failed the way it does when one side of the bridge was not scheduled
+/// for longer than the bridge's 5 s failsafe (an overloaded or throttled machine): the client saw a
+/// hang-up or a timeout AND the harness's TLS peer did not get a complete request either. Such a case
+/// is run once more by its property: a defect of the library reproduces, starvation does not.
+pub fn starved(client_err: &str, server: Option<&ServerResult>) -> bool {
+    let transport = ["BrokenPipe", "ConnectionReset", "WouldBlock", "TimedOut", "UnexpectedEof", "temporarily unavailable", "timed out"].iter().any(|k| client_err.contains(k));
+    transport && server.map_or(true, |s| !s.request_complete)
+}
+
 pub fn spawn_server(spec: ServerSpec, stream: UnixStream) -> JoinHandle<ServerResult> {
     std::thread::spawn(move || {
         let _ = stream.set_read_timeout(Some(Duration::from_secs(5)));
